@@ -557,7 +557,11 @@ func c15RunIDGen(w *simrt.World, tier string) {
 		ti, p := ti, p
 		tname := fmt.Sprintf("t%d@%s", ti, p.inst.name)
 		tasks = append(tasks, w.Spawn(tname, func() {
-			type own struct{ kind, id string }
+			type own struct {
+				kind, id string
+				since    time.Duration // instant the generation was invoked
+				ttl      time.Duration // lifetime of the marker written for it; 0 = never expires
+			}
 			var mine []own
 			for _, o := range p.ops {
 				switch o.typ {
@@ -569,6 +573,15 @@ func c15RunIDGen(w *simrt.World, tier string) {
 						x := mine[0]
 						mine = mine[1:]
 						w.Yield("c15.release")
+						// Expiry of the marker counts as release of the id (see Assumptions): once the lifetime
+						// may have elapsed this task no longer owns the id, the id may already belong to a new
+						// holder, and a Release now would be a Release of somebody else's id. The workload
+						// never issues that. (Simulated time cannot move between this test and the store
+						// operation: this task stays runnable.)
+						if x.ttl > 0 && w.Now() >= x.since+x.ttl {
+							w.Probe("release.skipped-marker-lifetime-elapsed")
+							continue
+						}
 						mu.Lock()
 						rels = append(rels, c15release{kind: x.kind, id: x.id, callStamp: w.Stamp()})
 						mu.Unlock()
@@ -633,7 +646,7 @@ func c15RunIDGen(w *simrt.World, tier string) {
 				} else {
 					g.id = id
 					gens = append(gens, g)
-					mine = append(mine, own{o.kind, id})
+					mine = append(mine, own{o.kind, id, g.callTime, g.ttl})
 					w.Probe("generate.ok." + o.kind)
 				}
 				mu.Unlock()
@@ -1115,6 +1128,7 @@ func init() {
 		Stub: []string{"crypto/rand.Reader: pool-backed reader for the run (restored at the end of Run); google/uuid keeps its own full-entropy reader", "per-node connection to the shared store: simstore handle + outage switch", "store lacking CASStore / cache lacking SetNX: interface-narrowing wrappers over the real memory backend", "caller's existence check for GenerateUnique*: a harness set"},
 		Assumptions: []string{"expiry of a marker (its configured lifetime elapsed) counts as release of the id; instants exactly on an expiry are never generated (odd millisecond offsets)",
 			"a Release whose invocation started before a later Generate returned may have freed the id (conservative)",
+			"a holder whose marker lifetime may have elapsed no longer owns the id and never calls Release for it (Release is an unconditional delete by key: a stale Release after expiry and re-issue frees the new holder's id; not generated)",
 			"pre-existing markers use the key layout named in the property (tunnox:id:used:<kind>:<id>); pre-occupied node slots use node.NodeIDKeyPrefix + node-%04d",
 			"a crashed node keeps its ids forever (idgen) / its slot until callTime+NodeIDLockTTL at least (nodealloc)",
 			"low entropy is applied only to store-backed generators; UUID-based ids are excluded from the collision-amplified oracle"},
